@@ -1,11 +1,14 @@
 CONSTANTS
   BITS = 5
   ERAS = 3
+  PRE = 2
 SPECIFICATION Spec
 INVARIANT IOrder
 INVARIANT IPlace
 INVARIANT IAdd
 INVARIANT IText
+INVARIANT IInstant
+INVARIANT IVacuity
 PROPERTY PBoth
 PROPERTY POne
 CHECK_DEADLOCK FALSE
